@@ -36,6 +36,7 @@ type foldInfo struct {
 	Pos      token.Pos
 	Guard    string
 	CellType types.Type
+	Dir      string // for Kind "compared": "min" | "max" | "unknown"
 }
 
 // findFolds finds accumulators: header phis of loops over slices that are
@@ -120,6 +121,16 @@ func findFolds(p *core.Prog, fn *ssa.Function) []foldInfo {
 						fi.Guard = strings.Join(guards, ",")
 						if reads {
 							k = "compared"
+							fi.Dir = foldDirection(l, c.v, c.from, func(v ssa.Value) bool {
+								v = core.SkipConv(v)
+								if v == ssa.Value(acc) {
+									return true
+								}
+								if u, ok := v.(*ssa.UnOp); ok && u.Op == token.MUL && u.X == ssa.Value(acc) {
+									return true
+								}
+								return false
+							})
 						} else {
 							k = "guard-ignores-accumulator"
 						}
@@ -200,6 +211,7 @@ func findFolds(p *core.Prog, fn *ssa.Function) []foldInfo {
 				switch {
 				case reads:
 					fi.Kind = "compared"
+					fi.Dir = foldDirection(l, st.Val, b, isLoadOf)
 				case len(guards) == 0:
 					fi.Kind = "unconditional"
 				default:
@@ -255,9 +267,12 @@ func runC12(p *core.Prog, r *core.Report) {
 				}
 				seenC[construct] = true
 				n++
-				ok := f.Kind == "min-builtin" || f.Kind == "compared"
-				r.Check(ok, "C12.R1", construct, "the lowest initial block is a minimum: each candidate is compared with the accumulator (or folded with min) before replacing it, so the result does not depend on the order of the modules",
-					"accumulator update is "+f.Kind+" (guards at "+f.Guard+"): the last matching element wins", p.Pos(f.Pos))
+				ok := f.Kind == "min-builtin" || (f.Kind == "compared" && f.Dir == "min")
+				detail := "accumulator update is " + f.Kind + " (guards at " + f.Guard + "): the last matching element wins"
+				if f.Kind == "compared" {
+					detail = "the comparison guarding the replacement is oriented as " + f.Dir + " (candidate must be below the accumulator to replace it)"
+				}
+				r.Check(ok, "C12.R1", construct, "the lowest initial block is a minimum: a candidate replaces the accumulator only when it is lower (comparison candidate < accumulator, or min()), so the result is the lowest and does not depend on the order of the modules", detail, p.Pos(f.Pos))
 			}
 			if n == 0 {
 				core.Undecide("%s: no block-number accumulator found", fs.fn)
@@ -771,4 +786,78 @@ func checkCursorResolution(p *core.Prog, r *core.Report, rule string) {
 	r.Check(sawFinal && len(bad) == 0, rule, "resolve/final-cursor", "a cursor on a final block resumes at that block + 1; a step-new cursor at its (junction) block + 1; a step-undo cursor at its block",
 		fmt.Sprintf("final=%v new=%v undo=%v %s", sawFinal, sawNew, sawUndo, strings.Join(bad, "; ")), p.Pos(fn.Pos()))
 	r.Check(sawNew && sawUndo, rule, "resolve/steps", "both cursor steps (new, undo) are resolved", fmt.Sprintf("new=%v undo=%v", sawNew, sawUndo), p.Pos(fn.Pos()))
+}
+
+// foldDirection: orientation of the comparison between the candidate and the
+// accumulator on the edges that lead to the replacement.  "min" when the
+// replacement happens only under candidate < (or <=) accumulator, "max" for
+// the opposite, "unknown" when no such comparison is found.
+func foldDirection(l *core.Loop, cand ssa.Value, from *ssa.BasicBlock, isAcc func(ssa.Value) bool) string {
+	isCand := func(v ssa.Value) bool {
+		v = core.SkipConv(v)
+		if sameExpr(v, cand, 3) {
+			return true
+		}
+		// candidate is the address of a field: the comparison reads that field
+		if fa, ok := cand.(*ssa.FieldAddr); ok {
+			if u, ok := v.(*ssa.UnOp); ok && u.Op == token.MUL {
+				if fb, ok := u.X.(*ssa.FieldAddr); ok && fb.Field == fa.Field && sameExpr(fa.X, fb.X, 3) {
+					return true
+				}
+			}
+		}
+		return false
+	}
+	dir := "unknown"
+	for gb := range l.Body {
+		if gb == l.Header {
+			continue
+		}
+		ifi, ok := gb.Instrs[len(gb.Instrs)-1].(*ssa.If)
+		if !ok {
+			continue
+		}
+		onT, onF, ok := core.CondRelation(ifi.Cond, isCand, isAcc)
+		if !ok {
+			continue
+		}
+		// which edge leads to the replacement block?
+		set := 0
+		tReach := reachWithin(l, gb.Succs[0], from)
+		fReach := reachWithin(l, gb.Succs[1], from)
+		switch {
+		case tReach && !fReach:
+			set = onT
+		case fReach && !tReach:
+			set = onF
+		default:
+			continue
+		}
+		switch {
+		case set&core.OrdGT == 0 && set&core.OrdLT != 0:
+			dir = "min"
+		case set&core.OrdLT == 0 && set&core.OrdGT != 0:
+			return "max"
+		}
+	}
+	return dir
+}
+
+// reachWithin: is `to` reachable from `b` inside the loop body without passing the loop header?
+func reachWithin(l *core.Loop, b, to *ssa.BasicBlock) bool {
+	seen := map[*ssa.BasicBlock]bool{}
+	stack := []*ssa.BasicBlock{b}
+	for len(stack) > 0 {
+		x := stack[len(stack)-1]
+		stack = stack[:len(stack)-1]
+		if seen[x] || x == l.Header || !l.Body[x] {
+			continue
+		}
+		seen[x] = true
+		if x == to {
+			return true
+		}
+		stack = append(stack, x.Succs...)
+	}
+	return false
 }
